@@ -210,3 +210,181 @@ Definition cleanup_ok (rid : N) (out : list gupd) : bool :=
   end.
 
 Definition events_consumed (evs rest : list ev) : N := N.of_nat (length evs - length rest).
+
+(* ====================================================================== *)
+(* Unit level metrics of the connection (C15): a second record, next to the
+   state machine's [metrics] of BmpModel, for what the connection handler
+   itself counts.
+     src/units/bmp_tcp_in/metrics.rs          RouterMetrics, BmpTcpInMetrics::{router_metrics, remove_router}
+     src/units/bmp_tcp_in/status_reporter.rs  receive_io_error, message_received, message_processed,
+                                              message_processing_failure, router_connection_lost
+     src/units/bmp_tcp_in/router_handler.rs   where read_from_router / process_msg call them
+   [loop] above is left as it is (C06 / C07 are stated about it); [loopm] is the
+   same loop of the repaired code with the counters threaded through, and
+   BmpUnitProofs.loopm_fst shows that forgetting the counters gives [loop]. *)
+
+(* RouterMetrics: per router; `[AtomicUsize; 7]`, one slot per RFC 7854 message type code *)
+Record rmetrics := MkRM {
+  rm_recv : list N;        (* bmp_tcp_in_num_bmp_messages_received{msg_type} *)
+  rm_processed : N;        (* bmp_tcp_in_num_bmp_messages_processed *)
+  rm_invalid : N;          (* bmp_in_num_invalid_bmp_messages *)
+  rm_ioerr : N }.          (* bmp_tcp_in_num_receive_io_errors *)
+Definition n_types : nat := 7.
+Definition rm_zero : rmetrics := MkRM (replicate n_types 0) 0 0 0.      (* Default::default() *)
+
+(* BmpTcpInMetrics as far as one connection touches it: the entry of its router in
+   `routers` (made by router_metrics() on first use, dropped by remove_router()) and
+   connection_lost_count *)
+Record umetrics := MkUM { um_router : option rmetrics; um_lost : N }.
+Definition um_init : umetrics := MkUM None 0.
+
+(* `self.metrics.router_metrics(router_id)`: entry(..).or_insert_with(Default::default) *)
+Definition router_metrics (u : umetrics) : rmetrics := default rm_zero (um_router u).
+
+Definition receive_io_error (u : umetrics) : umetrics :=
+  let r := router_metrics u in
+  MkUM (Some (MkRM (rm_recv r) (rm_processed r) (rm_invalid r) (rm_ioerr r + 1))) (um_lost u).
+
+(* `.num_bmp_messages_received[rfc_7854_msg_type_code as usize].fetch_add(1)`: an index past
+   the slots is a panic (None) *)
+Definition message_received (u : umetrics) (code : N) : option umetrics :=
+  let r := router_metrics u in
+  match rm_recv r !! N.to_nat code with
+  | Some c => Some (MkUM (Some (MkRM (<[ N.to_nat code := c + 1 ]> (rm_recv r)) (rm_processed r) (rm_invalid r) (rm_ioerr r))) (um_lost u))
+  | None => None
+  end.
+
+Definition message_processed (u : umetrics) : umetrics :=
+  let r := router_metrics u in
+  MkUM (Some (MkRM (rm_recv r) (rm_processed r + 1) (rm_invalid r) (rm_ioerr r))) (um_lost u).
+
+Definition message_processing_failure (u : umetrics) : umetrics :=
+  let r := router_metrics u in
+  MkUM (Some (MkRM (rm_recv r) (rm_processed r) (rm_invalid r + 1) (rm_ioerr r))) (um_lost u).
+
+(* connection_lost_count += 1; remove_router(router_id) *)
+Definition router_connection_lost (u : umetrics) : umetrics := MkUM None (um_lost u + 1).
+
+(* an HTTP client looks at the router's page while the connection is up
+   (http/router_info/response.rs build_response starts with `conn_metrics.router_metrics(router_id)`):
+   the router's entry is made if it is not there yet - all zeros; no counter changes *)
+Definition page_visit (u : umetrics) : umetrics := MkUM (Some (router_metrics u)) (um_lost u).
+
+(* `msg.common_header().msg_type().into()`: the sixth octet of the frame (version, four
+   length octets, type) - a value from the wire *)
+Definition frame_type (fr : list N) : N := nth 5 fr 0.
+
+(* process_msg (no roto filter) with its three status reports: message_received before
+   anything else, message_processed before the state machine runs, message_processing_failure
+   on an InvalidMessage answer. None = the index panic. *)
+Definition process_msg_m (rid : N) (s : sess) (fr : list N) (m : msg) (u : umetrics) : option (sess * umetrics) :=
+  match message_received u (frame_type fr) with
+  | None => None
+  | Some u1 =>
+      let u2 := message_processed u1 in
+      let '(r', sm', o) := sm_step (s_reg s) rid (s_sm s) m in
+      let u3 := match o with OInvalid => message_processing_failure u2 | _ => u2 end in
+      Some (MkSess r' sm' (s_out s ++ match o with OUpdate x => [GUpd x] | _ => [] end), u3)
+  end.
+
+(* read_from_router's loop (repaired code): every Err of BmpStream::next - a failed read,
+   end of file, the short length field, a frame the parser rejects - is one
+   receive_io_error, fatal or not; gate termination is not. The counters returned are
+   those at the moment the loop is left. *)
+Fixpoint loopm (fuel : nat) (parse : list N -> option msg) (tl : tail) (rid : N)
+         (evs : list ev) (s : sess) (u : umetrics) : result * umetrics :=
+  match fuel with
+  | O => (OutOfFuel, u)
+  | S f =>
+      match bmp_read evs with
+      | RdEnd =>
+          match tl with
+          | TEof => let u1 := receive_io_error u in
+                    if is_fatal KUnexpectedEof then (Done EndEof [] s (cleanup rid s), u1)
+                    else loopm f parse tl rid [] s u1
+          | THang => (Done EndTerm [] s (cleanup rid s), u)
+          end
+      | RdErr k r =>
+          let u1 := receive_io_error u in
+          if is_fatal k then (Done (EndErr k) r s (cleanup rid s), u1) else loopm f parse tl rid r s u1
+      | RdShort r =>
+          let u1 := receive_io_error u in
+          if is_fatal KInvalidData then (Done EndShort r s (cleanup rid s), u1) else loopm f parse tl rid r s u1
+      | RdFrame fr r =>
+          match parse fr with
+          | None =>
+              let u1 := receive_io_error u in
+              if is_fatal KOther then (Done (EndErr KOther) r s (cleanup rid s), u1) else loopm f parse tl rid r s u1
+          | Some m =>
+              match process_msg_m rid s fr m u with
+              | Some (s', u') => loopm f parse tl rid r s' u'
+              | None => (Panic PMetricsIndex r s, u)
+              end
+          end
+      end
+  end.
+
+Definition run_from_m (parse : list N -> option msg) (tl : tail) (rid : N) (evs : list ev) (s : sess) (u : umetrics)
+  : result * umetrics :=
+  loopm (S (length evs)) parse tl rid evs s u.
+
+(* the post-loop block starts with router_connection_lost; a task that died never gets there *)
+Definition unit_final (x : result * umetrics) : umetrics :=
+  match x.1 with Done _ _ _ _ => router_connection_lost x.2 | _ => x.2 end.
+
+(* the connection at a quiescent moment: it has handed out exactly the first k read events
+   and is asked for more (cf. BmpPageModel.page_at). None = the session ended within them. *)
+Definition conn_at (parse : list N -> option msg) (rid : N) (evs : list ev) (k : nat) (s0 : sess) (u0 : umetrics)
+  : option (sess * umetrics) :=
+  match run_from_m parse THang rid (take k evs) s0 u0 with
+  | (Done EndTerm _ s _, u) => Some (s, u)
+  | _ => None
+  end.
+
+(* ---------- what happened, read off the script alone ---------- *)
+(* one entry per iteration of the read loop; no session state, no counters *)
+Inductive iter :=
+| ItMsg (fr : list N) (m : msg)      (* a frame the parser accepted *)
+| ItReject (fr : list N)             (* a frame the parser rejected (ErrorKind::Other) *)
+| ItErr (k : ekind)                  (* the read failed *)
+| ItShort                            (* length field below 5 (InvalidData) *)
+| ItEof                              (* end of file (UnexpectedEof) *)
+| ItTerm.                            (* the gate was terminated while the read was pending *)
+
+Fixpoint iters (fuel : nat) (parse : list N -> option msg) (tl : tail) (evs : list ev) : list iter :=
+  match fuel with
+  | O => []
+  | S f =>
+      match bmp_read evs with
+      | RdEnd => match tl with TEof => [ItEof] | THang => [ItTerm] end
+      | RdErr k r => ItErr k :: (if is_fatal k then [] else iters f parse tl r)
+      | RdShort r => [ItShort]
+      | RdFrame fr r =>
+          match parse fr with
+          | None => ItReject fr :: iters f parse tl r
+          | Some m => ItMsg fr m :: iters f parse tl r
+          end
+      end
+  end.
+Definition iters_of (parse : list N -> option msg) (tl : tail) (evs : list ev) : list iter :=
+  iters (S (length evs)) parse tl evs.
+
+Fixpoint countb {A} (f : A -> bool) (l : list A) : N :=
+  match l with [] => 0 | x :: l' => (if f x then 1 else 0) + countb f l' end.
+
+(* BmpStream::next returned Err *)
+Definition it_failed (i : iter) : bool := match i with ItMsg _ _ | ItTerm => false | _ => true end.
+(* an accepted frame of type t *)
+Definition it_type (t : N) (i : iter) : bool := match i with ItMsg fr _ => N.eqb (frame_type fr) t | _ => false end.
+Definition it_accepted (i : iter) : bool := match i with ItMsg _ _ => true | _ => false end.
+(* the messages handed to the state machine, in order *)
+Definition it_msgs (l : list iter) : list msg := omap (fun i => match i with ItMsg _ m => Some m | _ => None end) l.
+
+Definition recv_of (u : umetrics) (t : nat) : N := default 0 (rm_recv (router_metrics u) !! t).
+
+(* what routecore's Message::from_octets guarantees about the type octet of a frame it
+   accepts (MessageType::Unimplemented(_) => Err): the premise that keeps the metrics index in range *)
+Definition parse_types_ok (parse : list N -> option msg) : Prop :=
+  forall fr m, parse fr = Some m -> frame_type fr < 7.
+Definition um_wf (u : umetrics) : Prop :=
+  match um_router u with Some r => length (rm_recv r) = n_types | None => True end.
